@@ -430,7 +430,7 @@ class ZoneFn:
             return 'elem:%s.%s' % (pzf.body.local_name(comps[0][1]), comp)
         if comp.isdigit() and len(comps) > 1 and int(comp) < len(comps) and comps[int(comp)] is not None:
             if comps[int(comp)][0] == 'iterparam':
-                return None
+                return 'elem:%s' % pzf.body.local_name(comps[int(comp)][1])      # the items of that iterator parameter
             return pzf.elem_sym_of_desc(comps[int(comp)])
         return None
 
@@ -580,6 +580,30 @@ class ZoneFn:
                         return (root, s0, self._tsum(s0, kt))
                     if path == ('1',):
                         return (root, self._tsum(s0, kt), e0)
+            # a local helper that hands back a piece of one of its arguments (`fn split(&self, L) -> (Q1, &self.values[1..])`)
+            from flow import local_target
+            tgt = local_target(self.za.eng, t)
+            if tgt is not None and tgt != self.body.path and depth < 6:
+                summ = self.za.summary(tgt)
+                rs = ((summ or {}).get('retslice') or {}).get(tuple(p_ for p_ in path if not str(p_).startswith('__')))
+                if rs is not None:
+                    kparam, rpath, st, en = rs
+                    if kparam - 1 < len(t['args']) and t['args'][kparam - 1]['k'] in ('copy', 'move'):
+                        ad = self.desc_place(t['args'][kparam - 1]['pl'])
+                        if rpath:
+                            if ad[0] == 'cont':
+                                ad = ('cont', ad[1], ad[2] + tuple(rpath), '')
+                            elif ad[0] == 'call':
+                                ad = ('callfield', ad[1], ad[2], tuple(rpath), '')
+                            elif ad[0] == 'callfield':
+                                ad = ('callfield', ad[1], ad[2], ad[3] + tuple(rpath), '')
+                            else:
+                                ad = None
+                        o = self.slice_origin(ad, depth + 1) if ad is not None else None
+                        st2 = self.za.subst(self, t, st, tgt=tgt)
+                        if o is not None and st2 is not None:
+                            root, s0, e0 = o
+                            return (root, self._tsum(s0, st2), None)
             return (d, (None, 0), self.len_of_desc(d))
         if k == 'call':
             return (d, (None, 0), self.len_of_desc(d))
